@@ -490,6 +490,10 @@ class Parser:
                     "end of script reached while %s expected"
                     % "|".join(self.__expected)
                 )
+            if self.__cstate is not None:
+                raise ParseError(
+                    "end of script reached while semicolon or block expected"
+                )
 
         except (ParseError, CommandError) as e:
             self.error_pos = (
